@@ -636,6 +636,18 @@ class Check:
             nonclosed = {n: a for n, a in ax.items() if not a.startswith("Closed")}
             self.coverage["axioms_used"] = sorted(set(
                 l.split(":")[0].strip() for a in nonclosed.values() for l in a.split("\n")[1:] if l and not l.startswith(" ")))
+        if r.ok and self.tier == "thorough":
+            # independent re-check of the compiled closure (coqchk) + its own axiom listing
+            mod = "PTK." + props_v[:-2].replace("/", ".")
+            with BuildLock():
+                rc, out = run(["coqchk", "-silent", "-o", "-Q", ".", "PTK", mod], cwd=COQ, timeout=1800)
+            m = re.search(r"\* Axioms:(.*?)\n\s*\n\* Constants", out, re.S)
+            axioms = " ".join(m.group(1).split()) if m else "(not parsed)"
+            self.coverage["coqchk"] = {"cmd": "coqchk -silent -o -Q . PTK " + mod, "rc": rc, "axioms": axioms,
+                                       "summary": out[-600:]}
+            if rc != 0:
+                self.violation("proof", "coqchk rejects the compiled development: " + out[-300:], {"kind": "coqchk"},
+                               {"log": out[-3000:]}, no_input=True)
         self.proof_result = r
         return r
 
